@@ -321,6 +321,12 @@ class HdlcModel:
     def _value(self, v):
         if self.is_popped(v):
             return ("popped",)
+        if v[0] == "sub" and v[1][0] == "c" and isinstance(v[1][1], (bytes, tuple)) and len(v[1][1]) == 256 and self.is_popped(v[2]) and all(isinstance(x_, int) for x_ in v[1][1]):
+            # a 256-entry constant table indexed by the received octet: the function it tabulates
+            tab = v[1][1]
+            k = tab[0]
+            if all(tab[i] == i ^ k for i in range(256)):
+                return ("popped",) if k == 0 else ("popped^", k)
         if v[0] == "op" and v[1] == "BitXor":
             a, b = v[2], v[3]
             if self.is_popped(b) and a[0] == "c":
